@@ -121,11 +121,21 @@ class World:
             config = Configurator()
             config.set_authentication_policy(_Authn())
             config.set_authorization_policy(self.policy)
+            self.config, self.views = config, set()
             for p in perms:
-                config.add_view(_view, name=p, permission=p)
-            config.commit()
+                self.ensure_view(p)
         self.registry = config.registry
         self.Request, self.manager, self.security = Request, manager, security
+
+    def ensure_view(self, p):
+        """one view named after, and protected by, the permission p"""
+        p = str(p)
+        if p not in self.views:
+            with warnings.catch_warnings():
+                warnings.simplefilter('ignore')
+                self.config.add_view(_view, name=p, permission=p)
+                self.config.commit()
+            self.views.add(p)
 
     def request(self, principals):
         r = self.Request.blank('/')
@@ -137,6 +147,7 @@ class World:
         return self.request(principals).has_permission(permission, context)
 
     def view_execution_permitted(self, context, principals, permission):
+        self.ensure_view(permission)
         return self.security.view_execution_permitted(context, self.request(principals), name=permission)
 
     def principals_allowed(self, context, permission):
